@@ -481,3 +481,205 @@ func genLifecycle(r *Rng, idx int, tier string, step func(op string) string) {
 	}
 	step("diskcheck final=1")
 }
+
+func init() {
+	register(&Suite{Name: "loop-magnet", NewStepper: newLoopStepper, GenStep: genLoopMagnet})
+}
+
+// metaRequests extracts the metadata block indexes the client requested from peer k in this observation.
+func metaRequests(o string, k int) []int {
+	var out []int
+	for _, msg := range commaList(obsKV(o)[fmt.Sprintf("p%d", k)]) {
+		if strings.HasPrefix(msg, "extmeta:") && strings.Contains(msg, ":type=0:") {
+			for _, f := range strings.Split(msg, ":") {
+				if strings.HasPrefix(f, "piece=") {
+					out = append(out, atoi(strings.TrimPrefix(f, "piece=")))
+				}
+			}
+		}
+	}
+	return out
+}
+
+// genLoopMagnet: a torrent added by magnet link; peers announce true / wrong / zero / oversized metadata
+// sizes and answer the client's metadata requests honestly, with flipped bytes, wrong lengths, duplicates,
+// unrequested indexes or rejects; have/bitfield messages arrive before the metadata is known (and are
+// replayed later); finally an honest peer serves metadata and data.
+func genLoopMagnet(r *Rng, idx int, tier string, step func(op string) string) {
+	l := genLayout(r)
+	for l.numPieces() > 5 {
+		l.pl *= 2
+	}
+	private := r.Chance(8)
+	o := step(fmt.Sprintf("new pl=%d files=%s magnet=1 private=%s cfg.AllowedFastSet=0 cfg.MaxMetadataSize=40000 multi=%s",
+		l.pl, l.filesArg(), b01(private), b01(r.Chance(50))))
+	if !strings.HasPrefix(o, "ok") {
+		return
+	}
+	isize := atoi(obsKV(o)["isize"])
+	step("start")
+	type mp struct {
+		k       int
+		kind    string // honest | liar | sizeliar | rejecter | mute
+		pending []int
+		closed  bool
+		size    int
+	}
+	var peers []*mp
+	var dpeers []*scriptPeer
+	nextK := 1
+	info := func(o string) bool { return obsKV(o)["info"] == "1" }
+	note := func(o string) {
+		m := obsKV(o)
+		live := map[string]bool{}
+		for _, k := range commaList(m["peers"]) {
+			live[k] = true
+		}
+		for _, p := range peers {
+			if _, ok := m["peers"]; ok && !live[fmt.Sprint(p.k)] {
+				p.closed = true
+			}
+			p.pending = append(p.pending, metaRequests(o, p.k)...)
+		}
+		absorb(dpeers, o)
+	}
+	last := o
+	do := func(op string) string { last = step(op); note(last); return last }
+	addPeer := func(kind string) *mp {
+		p := &mp{k: nextK, kind: kind, size: isize}
+		nextK++
+		peers = append(peers, p)
+		dpeers = append(dpeers, &scriptPeer{k: p.k, kind: "honest"})
+		o := do(fmt.Sprintf("peer k=%d fast=%s ext=1", p.k, b01(r.Chance(50))))
+		if !strings.HasPrefix(o, "accepted") {
+			p.closed = true
+			return p
+		}
+		if r.Chance(40) {
+			// messages before the extension handshake / metadata: queued by the client
+			switch r.Intn(4) {
+			case 0:
+				do(fmt.Sprintf("msg p=%d t=haveall", p.k))
+			case 1:
+				bits := strings.Repeat("1", l.numPieces())
+				if r.Chance(40) {
+					bits += strings.Repeat("1", 8) // wrong length for the real piece count
+				}
+				do(fmt.Sprintf("msg p=%d t=bitfield bits=%s", p.k, bits))
+				if r.Chance(60) {
+					do(fmt.Sprintf("msg p=%d t=have i=%d", p.k, r.Intn(l.numPieces()+1)))
+				}
+			case 2:
+				do(fmt.Sprintf("msg p=%d t=have i=%d", p.k, r.Intn(l.numPieces()+2)))
+			default:
+				do(fmt.Sprintf("msg p=%d t=allowedfast i=%d", p.k, r.Intn(l.numPieces()+2)))
+			}
+		}
+		switch kind {
+		case "sizeliar":
+			p.size = r.Pick(0, 1, isize-1, isize+1, isize+16384, 39999, 40000, 40001, 1<<20)
+			if p.size < 0 {
+				p.size = 0
+			}
+		case "mute":
+			if r.Chance(50) {
+				do(fmt.Sprintf("msg p=%d t=exths m=ut_pex:2 size=%d", p.k, isize))
+				return p
+			}
+		}
+		do(fmt.Sprintf("msg p=%d t=exths m=ut_metadata:3+ut_pex:2 size=%d reqq=%d", p.k, p.size, r.Pick(0, 0, 1, 250)))
+		return p
+	}
+	kinds := []string{"honest", "liar", "sizeliar", "rejecter", "mute"}
+	np := r.Range(1, 3)
+	for i := 0; i < np; i++ {
+		addPeer(kinds[r.Intn(len(kinds))])
+	}
+	budget := 14
+	if tier == "thorough" {
+		budget = 30
+	}
+	for s := 0; s < budget && !info(last); s++ {
+		if strings.HasPrefix(last, "hang") || strings.HasPrefix(last, "dead") {
+			return
+		}
+		var cand []*mp
+		for _, p := range peers {
+			if !p.closed {
+				cand = append(cand, p)
+			}
+		}
+		if len(cand) == 0 || r.Chance(12) {
+			if nextK > 7 {
+				break
+			}
+			addPeer(kinds[r.Intn(len(kinds))])
+			continue
+		}
+		p := cand[r.Intn(len(cand))]
+		switch {
+		case r.Chance(5):
+			do(fmt.Sprintf("snub p=%d", p.k))
+		case r.Chance(5):
+			do(fmt.Sprintf("disconnect p=%d", p.k))
+			p.closed = true
+		case r.Chance(5):
+			do(fmt.Sprintf("msg p=%d t=metareq i=%d", p.k, r.Intn(3)))
+		case len(p.pending) == 0:
+			if p.kind == "liar" || r.Chance(10) {
+				do(fmt.Sprintf("msg p=%d t=metadata i=%d data=true", p.k, r.Intn(3))) // unrequested
+			}
+		default:
+			i := p.pending[0]
+			p.pending = p.pending[1:]
+			switch p.kind {
+			case "honest", "sizeliar", "mute":
+				do(fmt.Sprintf("msg p=%d t=metadata i=%d data=true", p.k, i))
+			case "rejecter":
+				do(fmt.Sprintf("msg p=%d t=metareject i=%d", p.k, i))
+			case "liar":
+				switch r.Intn(4) {
+				case 0:
+					do(fmt.Sprintf("msg p=%d t=metadata i=%d data=flip", p.k, i))
+				case 1:
+					do(fmt.Sprintf("msg p=%d t=metadata i=%d len=%d", p.k, i, r.Pick(0, 1, 16383, 16384)))
+				case 2:
+					do(fmt.Sprintf("msg p=%d t=metadata i=%d data=true", p.k, i))
+					do(fmt.Sprintf("msg p=%d t=metadata i=%d data=true", p.k, i)) // duplicate answer
+				default:
+					do(fmt.Sprintf("msg p=%d t=metadata i=%d data=true", p.k, i+1)) // wrong index
+				}
+			}
+		}
+	}
+	// an honest peer offering the metadata: the fetch must succeed (unless the torrent turns out private)
+	if !info(last) && !strings.HasPrefix(last, "hang") {
+		h := addPeer("honest")
+		for s := 0; s < 8 && !info(last) && !h.closed; s++ {
+			if len(h.pending) == 0 {
+				break
+			}
+			i := h.pending[0]
+			h.pending = h.pending[1:]
+			do(fmt.Sprintf("msg p=%d t=metadata i=%d data=true", h.k, i))
+		}
+	}
+	do("obs metaphase=done")
+	// data phase with whoever is still connected plus one honest seed
+	if info(last) && obsKV(last)["st"] == "Downloading" {
+		sd := &scriptPeer{k: nextK, kind: "honest"}
+		dpeers = append(dpeers, sd)
+		peers = append(peers, &mp{k: nextK})
+		o := do(fmt.Sprintf("peer k=%d fast=1 ext=0", sd.k))
+		if strings.HasPrefix(o, "accepted") {
+			do(fmt.Sprintf("msg p=%d t=haveall", sd.k))
+			do(fmt.Sprintf("msg p=%d t=unchoke", sd.k))
+			for i := 0; i < 3*l.numPieces()+6 && !sd.closed; i++ {
+				if honestServe(dpeers, sd, 64, step) == 0 {
+					break
+				}
+			}
+		}
+		step("diskcheck final=1")
+	}
+}
